@@ -47,6 +47,8 @@ def cases(tier, seed):
         out.append({"kind": "registry", "from": j, "to": min(len(its), j + 20), "seed": seed})
     out += _embedded.assembly_cases(seed, 48 if tier == "quick" else 2400, features=False)
     out += _embedded.registry_assembly_cases(seed, per_vector=1 if tier == "quick" else 6)
+    if tier == "thorough":
+        out.append({"kind": "repo-tests"})
     return out
 
 
@@ -105,6 +107,9 @@ def _variants(rng, cls, other_classes, count, run_max):
 
 def execute(mat, ctx):
     kind = mat["kind"]
+    if kind == "repo-tests":
+        _embedded.run_repo_tests_under_monitors(ctx, ["fragment"], PROP)
+        return
     if kind == "assembly-mat":
         _embedded.run_assembly(mat, ctx)
         return
